@@ -25,7 +25,11 @@ Inductive oxres := Ret (r : xres) | Stuck.
 (* one observed Dial: thread id, timeout (ms), result, elapsed (ms) *)
 Definition dobs := (N * N * oxres * N)%type.
 
-Definition dial_ok (oracle : list outcome) (d : dobs) : bool :=
+(* rm = what the observer made the Resolver do in this phase (it is only consulted when there is no cached entry).
+   A Resolver error is a legitimate result only when the observer's Resolver failed or hung; in every case the Dial must
+   be back no later than its timeout plus slack. *)
+Definition rm_bad (rm : rmode) : bool := match rm with RGood => false | _ => true end.
+Definition dial_ok (oracle : list outcome) (rm : rmode) (d : dobs) : bool :=
   match d with
   | (_, to, r, el) =>
       (el <=? to + slack_ms) &&
@@ -33,6 +37,7 @@ Definition dial_ok (oracle : list outcome) (d : dobs) : bool :=
       | Ret (XOk a) => oc_eqb (oracle_of oracle a) OAccept
       | Ret (XErr _) => forallb (fun o => oc_eqb o ORefuse) oracle
       | Ret (XTimeout a) => a <? N.of_nat (length oracle)
+      | Ret XResolveErr => rm_bad rm
       | Stuck => false       (* a Dial returns no later than its timeout plus slack *)
       end
   end.
@@ -41,4 +46,4 @@ Definition dial_ok (oracle : list outcome) (d : dobs) : bool :=
 Definition stress_dial_ok (capn to maxin : N) (accepting : bool) (rs : list (oxres * N)) : bool :=
   ((capn =? 0) || (maxin <=? capn)) &&
   forallb (fun r => (snd r <=? to + slack_ms) &&
-                    match fst r with Ret (XOk _) => accepting | Ret (XTimeout _) => true | Ret (XErr _) => false | Stuck => false end) rs.
+                    match fst r with Ret (XOk _) => accepting | Ret (XTimeout _) => true | Ret (XErr _) => false | Ret XResolveErr => false | Stuck => false end) rs.
